@@ -9,6 +9,11 @@ import hlib
 def run(case, lang):
     T = hlib.Table(case["ct"], case["order"], lang)
     case["ct"].update(hlib.real_builtin_entries(T.factory, case["ct"]))
+    if "Array" in case["ct"]:       # the language's own declaration of arrays is an input (Java / Groovy: covariant); specialised arrays are Kotlin's
+        case["ct"]["Array"]["tp"][0]["v"] = hlib.VNAME[T.factory.get_array_type().type_parameters[0].variance.value] if \
+            T.factory.get_array_type().type_parameters[0].variance.value else "inv"
+        if lang != "kotlin":
+            case["u"] = [u for u in case["u"] if "SArray" not in json.dumps(u)]
     objs = [T.build(u) for u in case["u"]]
     # round trip of the serialiser (trusted base cross-check): term -> object -> term
     for u, o in zip(case["u"], objs):
